@@ -13,7 +13,8 @@ import (
 // compression constant to the compressor of that name.
 func ruleCompressor(r *Report) {
 	const rule = "compressor"
-	r.Rule(rule, 8, "per compression type: compress and decompress use the same codec with the same constant parameters; the codec writer is closed successfully before the compressed bytes are taken; caller-supplied destination buffers are emptied (dst[:0]) before use; the factory maps each compression constant to the compressor of that name; no error is dropped")
+	r.Rule(rule, 10, "per compression type: compress and decompress use the same codec with the same constant parameters; the codec writer is closed successfully before the compressed bytes are taken; caller-supplied destination buffers are emptied (dst[:0]) before use; the factory maps each compression constant to the compressor of that name; no error is dropped")
+	ruleLzwWholeStream(r, rule)
 	p := r.P
 	type codecUse struct {
 		family string
